@@ -79,6 +79,8 @@ pub struct PoolResult {
     pub dropped_after_limit: u64,
     /// suspects beyond the isolation budget (not confirmed, not a verdict)
     pub unconfirmed_suspects: Vec<u64>,
+    /// the wall-clock budget of the workload was used up before all cases ran
+    pub budget_exceeded: bool,
 }
 
 struct Shared {
@@ -147,6 +149,12 @@ pub fn run_pool(wl: &dyn Workload, workload: &str, tier: &str, seed: u64, scratc
         res: PoolResult::default(),
         suspects: Vec::new(),
     }));
+    let budget = Duration::from_secs(
+        std::env::var("OALV_BUDGET_S")
+            .ok()
+            .and_then(|s| s.parse().ok())
+            .unwrap_or(if tier == "quick" { 600 } else { 7200 }),
+    );
     let case_timeout = Duration::from_secs(wl.case_timeout_s());
     let chunk_timeout = Duration::from_secs(wl.chunk_timeout_s());
 
@@ -171,8 +179,13 @@ pub fn run_pool(wl: &dyn Workload, workload: &str, tier: &str, seed: u64, scratc
                     // Fetch a chunk.
                     let job = {
                         let mut sh = shared.lock().unwrap();
-                        // Enough watchdog suspects or crashes: stop exploring, the verdict does not need more.
-                        if sh.suspects.len() >= MAX_SUSPECTS || sh.res.crashes.len() >= MAX_CRASHES {
+                        // Enough watchdog suspects or crashes, or the wall-clock budget of this workload is used
+                        // up: stop exploring (the budget firing alone is inconclusive, never a verdict).
+                        let over_budget = t0.elapsed() > budget;
+                        if over_budget && !sh.queue.is_empty() {
+                            sh.res.budget_exceeded = true;
+                        }
+                        if over_budget || sh.suspects.len() >= MAX_SUSPECTS || sh.res.crashes.len() >= MAX_CRASHES {
                             let dropped: u64 = sh.queue.iter().map(|(lo, hi, _)| hi - lo).sum();
                             if dropped > 0 {
                                 sh.res.dropped_after_limit += dropped;
@@ -474,6 +487,7 @@ pub fn summarize(r: &PoolResult) -> Value {
         "watchdog_slow_cases": r.slow_cases.len(),
         "watchdog_suspects_not_confirmed": r.unconfirmed_suspects.len(),
         "cases_dropped_after_suspect_limit": r.dropped_after_limit,
+        "wall_clock_budget_exceeded": r.budget_exceeded,
         "harness_errors": r.harness_errors.len(),
         "wall_s": r.wall_s,
     })
